@@ -573,7 +573,15 @@ class SlotNode(BaseNode):
             # This makes sure that the render context used outside of a component
             # is the same as the one used inside the slot.
             # See https://github.com/django-components/django-components/pull/859
-            if len(used_ctx.render_context.dicts) > 1 and "block_context" in used_ctx.render_context.dicts[-2]:
+            # The slot's own default content belongs to the template of this component, so it uses the current
+            # layer. A fill written in a template uses the layer of that template, as it was when the fill
+            # was collected.
+            fill_render_ctx_layer = getattr(slot_fill.slot, "_djc_render_ctx_layer", None)
+            if not slot_fill.is_filled:
+                render_ctx_layer = used_ctx.render_context.dicts[-1]
+            elif fill_render_ctx_layer is not None:
+                render_ctx_layer = fill_render_ctx_layer
+            elif len(used_ctx.render_context.dicts) > 1 and "block_context" in used_ctx.render_context.dicts[-2]:
                 render_ctx_layer = used_ctx.render_context.dicts[-2]
             else:
                 # Otherwise we simply re-use the last layer, so that following logic uses `with` in either case
@@ -944,6 +952,11 @@ def resolve_fills(
                 default_var=fill.default_var,
                 extra_context=fill.extra_context,
             )
+
+    # Remember the RenderContext layer (which holds the `{% block %}` overrides of `{% extends %}`) of the template
+    # in which the fills were written, so that `{% block %}` tags inside the fills are resolved against it.
+    for slot in slots.values():
+        slot._djc_render_ctx_layer = context.render_context.dicts[-1]  # type: ignore[attr-defined]
 
     return slots
 
